@@ -26,6 +26,8 @@ typedef __int128 I128;
 /* op2_exc == 1  <=>  a C++ exception derived from std::exception is in flight */
 int op2_exc;
 
+_Bool nondet_bool(void);
+
 /* ---- ghost indices: unconstrained, never assigned ("arbitrary cell") ---- */
 size_t gk;      /* ghost byte index            */
 size_t gi;      /* ghost element / member index */
